@@ -123,12 +123,88 @@ pub fn tab_after_container_marker(text: &str) -> bool {
     false
 }
 
+/// A line (not the first) whose indentation contains a tab while an earlier line opened a block container
+/// (list item / block quote) — the other input class of F27: the tab is partially consumed by the
+/// container's indentation (e.g. a code fence opened in a list item and followed by tabs).
+pub fn tab_indent_inside_container(text: &str) -> bool {
+    let mut container_open = false;
+    for line in text.split('\n') {
+        // the leading run of whitespace, comment leaders and container markers
+        let lead: String = line.chars().take_while(|c| c.is_whitespace() || matches!(c, '/' | '#' | '!' | '>' | '-' | '*' | '+')).collect();
+        if container_open && lead.contains('\t') {
+            return true;
+        }
+        let b = line.trim_start_matches(|c: char| c.is_whitespace() || matches!(c, '/' | '#' | '!'));
+        let digits = b.chars().take_while(|c| c.is_ascii_digit()).count();
+        let ordered = digits > 0 && matches!(b.chars().nth(digits), Some('.') | Some(')'));
+        if b.starts_with('>') || b.starts_with('-') || b.starts_with('*') || b.starts_with('+') || ordered {
+            container_open = true;
+        }
+    }
+    false
+}
+
+/// The input class of F31: `[word ws] modal ws of [ws course]` (modal = could/might/must/should/would or
+/// …n't, any capitalisation) in which one of the whitespace gaps is a MIXED run (two or more whitespace
+/// characters that are not all the same: space+tab, line break + indentation, …) — such a gap lexes to
+/// more than one whitespace token.
+pub fn modal_mixed_ws_of(text: &str) -> bool {
+    let cs: Vec<char> = text.chars().map(|c| c.to_ascii_lowercase()).collect();
+    let is_ws = |c: char| c.is_whitespace();
+    let mixed = |g: &[char]| g.len() >= 2 && g.iter().any(|c| *c != g[0]);
+    let word_at = |i: usize, w: &str| -> bool {
+        let wc: Vec<char> = w.chars().collect();
+        i + wc.len() <= cs.len() && cs[i..i + wc.len()] == wc[..]
+    };
+    for m in ["couldn't", "mightn't", "mustn't", "shouldn't", "wouldn't", "couldn’t", "mightn’t", "mustn’t", "shouldn’t", "wouldn’t", "could", "might", "must", "should", "would"] {
+        let ml = m.chars().count();
+        for i in 0..cs.len() {
+            if !word_at(i, m) {
+                continue;
+            }
+            // gap modal -> of
+            let mut j = i + ml;
+            let g1 = j;
+            while j < cs.len() && is_ws(cs[j]) {
+                j += 1;
+            }
+            if j == g1 || !word_at(j, "of") {
+                continue;
+            }
+            let mut any = mixed(&cs[g1..j]);
+            // gap of -> course
+            let mut k = j + 2;
+            let g2 = k;
+            while k < cs.len() && is_ws(cs[k]) {
+                k += 1;
+            }
+            if k > g2 && word_at(k, "course") {
+                any |= mixed(&cs[g2..k]);
+            }
+            // gap word -> modal
+            let mut h = i;
+            while h > 0 && is_ws(cs[h - 1]) {
+                h -= 1;
+            }
+            if h < i && h > 0 {
+                any |= mixed(&cs[h..i]);
+            }
+            if any {
+                return true;
+            }
+        }
+    }
+    false
+}
+
 /// Input features the known-finding classifiers may refer to (computed, never hand-written).
 pub fn features(fe: &str, text: &str) -> Value {
     json!({
         "markdown_based": markdown_based(fe),
         "tab_after_container_marker": tab_after_container_marker(text),
+        "tab_indent_inside_container": tab_indent_inside_container(text),
         "go_directive": fe.starts_with("c:go") && text.contains("go:"),
+        "modal_then_mixed_whitespace_then_of": modal_mixed_ws_of(text),
         "max_word_len": text.split(|c: char| c.is_whitespace()).map(|w| w.chars().count()).max().unwrap_or(0),
         "chars": text.chars().count(),
     })
@@ -144,6 +220,7 @@ pub enum Outcome {
 }
 
 const MAX_HANGS: usize = 6;
+static SETUP_PANICS: AtomicUsize = AtomicUsize::new(0);
 
 pub struct Worker {
     dict: Arc<FstDictionary>,
@@ -218,18 +295,44 @@ impl Worker {
     }
 }
 
+/// CPU time (user + system, in clock ticks of 10 ms) a thread of this process has consumed, read from
+/// /proc; `task` is what `/proc/thread-self` pointed to inside that thread ("<pid>/task/<tid>").
+fn thread_cpu_ticks(task: &str) -> Option<u64> {
+    let s = std::fs::read_to_string(format!("/proc/{task}/stat")).ok()?;
+    let rest = &s[s.rfind(')')? + 2..];
+    let f: Vec<&str> = rest.split(' ').collect();
+    Some(f.get(11)?.parse::<u64>().ok()? + f.get(12)?.parse::<u64>().ok()?)
+}
+fn own_task() -> String {
+    std::fs::read_link("/proc/thread-self").map(|p| p.to_string_lossy().to_string()).unwrap_or_default()
+}
+/// "No return within the deadline" is measured in CPU seconds of the thread that runs the case (a
+/// loop that never ends burns CPU), so that a loaded machine does not turn slow cases into hangs;
+/// a case that blocks without burning CPU is declared hung after 12 x the deadline of wall time.
+fn over_deadline(task: &str, cpu_start: u64, t0: Instant, deadline: Duration) -> bool {
+    let wall = t0.elapsed();
+    if wall <= deadline {
+        return false;
+    }
+    match thread_cpu_ticks(task) {
+        Some(now) => now.saturating_sub(cpu_start) >= deadline.as_secs() * 100 || wall > deadline * 12,
+        None => true,
+    }
+}
+
 /// Run all cases on `threads` workers under a watchdog.  Results come back in case order.
 pub fn run_cases(cases: Arc<Vec<Case>>, threads: usize, deadline: Duration) -> Vec<Outcome> {
     let n = cases.len();
     let next = Arc::new(AtomicUsize::new(0));
     let results: Arc<Mutex<Vec<Option<Outcome>>>> = Arc::new(Mutex::new(vec![None; n]));
     // per worker: (case index, start) of the case in flight; generation counter to abandon a hung worker
-    type Slot = Arc<Mutex<Option<(usize, Instant)>>>;
+    type Slot = Arc<Mutex<Option<(usize, Instant, u64, String)>>>;
     let spawn = |slot: Slot, next: Arc<AtomicUsize>, results: Arc<Mutex<Vec<Option<Outcome>>>>, cases: Arc<Vec<Case>>| {
         std::thread::Builder::new()
             .stack_size(64 << 20)
             .spawn(move || {
                 let mut w = Worker::new();
+                let task = own_task();
                 loop {
                     let i = next.fetch_add(1, Ordering::SeqCst);
                     if i >= cases.len() {
@@ -240,10 +343,14 @@ pub fn run_cases(cases: Arc<Vec<Case>>, threads: usize, deadline: Duration) -> V
                     let out = match guarded_loc(|| w.prepare(&cases[i])) {
                         Err((msg, loc)) => {
                             w = Worker::new();
+                            // building the rules fails again and again (seconds each): a few dozen witnesses are enough
+                            if SETUP_PANICS.fetch_add(1, Ordering::SeqCst) > 40 {
+                                next.store(cases.len(), Ordering::SeqCst);
+                            }
                             Outcome::Panic { stage: "setup (LintGroup::new_curated / configuration)", msg, loc }
                         }
                         Ok(()) => {
-                            *slot.lock().unwrap() = Some((i, Instant::now()));
+                            *slot.lock().unwrap() = Some((i, Instant::now(), thread_cpu_ticks(&task).unwrap_or(0), task.clone()));
                             w.run(&cases[i])
                         }
                     };
@@ -276,9 +383,9 @@ pub fn run_cases(cases: Arc<Vec<Case>>, threads: usize, deadline: Duration) -> V
         }
         let mut busy = 0;
         for k in 0..slots.len() {
-            let cur = *slots[k].lock().unwrap();
-            if let Some((i, t0)) = cur {
-                if t0.elapsed() > deadline {
+            let cur = slots[k].lock().unwrap().clone();
+            if let Some((i, t0, cpu0, task)) = cur {
+                if over_deadline(&task, cpu0, t0, deadline) {
                     let mut res = results.lock().unwrap();
                     if res[i].is_none() {
                         res[i] = Some(Outcome::Hang { secs: deadline.as_secs() });
@@ -302,7 +409,7 @@ pub fn run_cases(cases: Arc<Vec<Case>>, threads: usize, deadline: Duration) -> V
             let mut first = true;
             for r in res.iter_mut() {
                 if r.is_none() {
-                    *r = Some(if first && hangs < MAX_HANGS { Outcome::Panic { stage: "worker", msg: "a worker thread died outside catch_unwind".into(), loc: last_panic_location() } } else { Outcome::Skipped });
+                    *r = Some(if first && hangs < MAX_HANGS && SETUP_PANICS.load(Ordering::SeqCst) <= 40 { Outcome::Panic { stage: "worker", msg: "a worker thread died outside catch_unwind".into(), loc: last_panic_location() } } else { Outcome::Skipped });
                     first = false;
                 }
             }
@@ -450,6 +557,20 @@ fn edge_texts() -> Vec<(String, &'static str)> {
     v
 }
 
+/// Replace single spaces by whitespace that lexes to SEVERAL whitespace tokens (space+tab, newline+space, NBSP…):
+/// rule bodies that assume "one whitespace token between two words" index out of range on these.
+fn ws_mutate(text: &str, r: &mut Rng) -> String {
+    let mut out = String::new();
+    for c in text.chars() {
+        if c == ' ' && r.chance(1, 3) {
+            out.push_str(r.s(&[" \t ", "\n ", " \n", "\t ", " \t", "  \t", "\u{a0} ", " \u{a0}", "\n\t", " \r\n "]));
+        } else {
+            out.push(c);
+        }
+    }
+    out
+}
+
 fn prefixes(text: &str) -> Vec<String> {
     let cs: Vec<char> = text.chars().collect();
     let mut out = vec![];
@@ -524,6 +645,17 @@ fn generate(a: &Args, r: &mut Rng) -> Vec<Case> {
         }
         for t in &docs {
             push(&mut cases, fe, t.clone(), "generated", r, false);
+        }
+        // whitespace-mutated variants (several whitespace tokens between words)
+        let n_ws = if wrapped { a.scale(4, 40) } else { a.scale(24, 300) };
+        for i in 0..n_ws {
+            let base = match i % 3 {
+                0 => gen::sentence(r),
+                1 => frontends::embed(fe, r),
+                _ => format!("{} {} {}", gen::sentence(r), r.s(&["you should of known", "it could of been", "we might of course go", "the might of it", "he must of left", "I would of", "as well as", "a lot of", "in front of", "kind of"]), gen::sentence(r)),
+            };
+            let t = ws_mutate(&base, r);
+            push(&mut cases, fe, t, "whitespace-mutated", r, false);
         }
         // 3. every prefix (x 3 endings) of a sample of the generated documents
         let n_pref = if wrapped { a.scale(1, 6) } else { a.scale(2, 24) };
@@ -685,8 +817,12 @@ pub fn run(a: &Args, corpus: &[Value]) {
     for v in corpus {
         if let Some(c) = Case::from_json(v) {
             first.push(c);
-        } else {
-            corr::replay(&mut rep, v);
+        } else if v["kind"].as_str() == Some("scaling") {
+            if let Err(m) = guarded(|| scaling_probe(&mut rep, a)) {
+                rep.fail("panic_unattributed", format!("panic in lint at {}: {m} (scaling probe)", last_panic_location()), v.clone());
+            }
+        } else if let Err(m) = guarded(|| corr::replay(&mut rep, v)) {
+            rep.fail("panic", format!("panic in lint at {}: {m} (correspondence replay)", last_panic_location()), v.clone());
         }
     }
     let outs = run_cases(Arc::new(first.clone()), threads, deadline);
@@ -735,9 +871,15 @@ pub fn run(a: &Args, corpus: &[Value]) {
         return;
     }
 
-    // correspondence for the modelled cores
-    corr::run(&mut rep, a, &mut corr_rng);
-    scaling_probe(&mut rep, a);
+    // correspondence for the modelled cores (its set-up builds documents and patterns: a panic there is a finding too)
+    if let Err(m) = guarded(|| corr::run(&mut rep, a, &mut corr_rng)) {
+        let loc = last_panic_location();
+        rep.fail("panic_unattributed", format!("panic in lint at {}: {} (while setting up the correspondence)", loc.strip_prefix("/repo/").unwrap_or(&loc), m.chars().take(300).collect::<String>()), json!({"kind": "corr_fixed"}));
+    }
+    if let Err(m) = guarded(|| scaling_probe(&mut rep, a)) {
+        let loc = last_panic_location();
+        rep.fail("panic_unattributed", format!("panic in lint at {}: {} (scaling probe)", loc.strip_prefix("/repo/").unwrap_or(&loc), m.chars().take(300).collect::<String>()), json!({"kind": "scaling"}));
+    }
     rep.finish();
 }
 
